@@ -38,7 +38,8 @@ class C03(Spec):
                   "arbitrary wire-shaped byte strings go to VerifyKVPairProof under recover; "
                   "accept/reject equals the model's (its proto3 decoder mirrors protobuf-go's field loop) and the predicate "
                   "(accept honest, reject other value/key/root, never panic) is evaluated on the implementation.")
-    level_note = ("Byte-level completeness assumes the tree fits the Go types (int32 height/size, node keys < 2^32 bytes: `Fits`). "
+    level_note = ("Review follow-up: all collision disjuncts are located (CollisionIn over verifyTrace / stepPre / the two encodings); verify_total is now about verifyKVPairProofP, the verifier with the Go slice expressions h[len-32:] given an explicit panic outcome (run by the driver): it always returns .ok of the Bool-valued verifier; proto.Unmarshal not panicking / allocating every element is covered by the differential run on arbitrary bytes only. Completeness needs Hashed, which a tree loaded under enableMVCC does not satisfy (values elided): the completeness theorems cover prefix/pruning configurations, as the property quantifies; load-then-prove is tied differentially. "
+                  "Byte-level completeness assumes the tree fits the Go types (int32 height/size, node keys < 2^32 bytes: `Fits`). "
                   "The Collision disjunct is an explicit pair of distinct pre-images located among the strings actually hashed "
                   "(reduction), not an injectivity assumption. A proof whose sibling hash is prefixed with "
                   "junk still verifies (last 32 bytes used) — documented, not a violation.")
